@@ -189,7 +189,7 @@ def run(ctx):
         while i < len(prog):
             st = prog[i]
             if st["op"].startswith("damage_"):
-                c12.harness_step(st, cache)
+                c12.harness_step(st, cache, target, b"")
                 i += 1
                 continue
             mm = c12.route(st, m)
@@ -222,8 +222,15 @@ def run(ctx):
             req["key"] = rng.choice(["w", "", "x/y"])
         if lens and rng.random() < 0.5:
             req["flush_after"] = [rng.randrange(len(lens)), rng.randrange(len(lens))]
+        if req["final"] == "commit" and rng.random() < 0.15:
+            # the cache changes under the open writer: cleared through the API, temp area removed by an outside
+            # cleaner, the whole cache directory gone
+            req["before_commit"] = [rng.choice([{"op": "clear", "cache": cache},
+                                                {"op": "rmtree", "path": cache + "/tmp"},
+                                                {"op": "rmtree", "path": cache},
+                                                {"op": "rmtree", "path": cache + "/content-v2"}])]
         r = ctx.call(mode, req, timeout=30)
-        cls = ("len0" if ln == 0 else "small" if ln <= MIB else "big",
+        cls = ("before_commit" in req, "len0" if ln == 0 else "small" if ln <= MIB else "big",
                "undeclared" if dsz is None else "exact" if dsz == ln else "less" if dsz < ln else "more",
                "chunks%d" % min(len(lens), 2), req["final"])
         judge(ctx, f"writer len={ln} declared={dsz} chunks={lens[:6]} final={req['final']}", mode, req, r, "writer-options")
